@@ -49,9 +49,11 @@ let parse_topic (tok : string) : topic =
     { t_id = n_of_int (int_of_string (String.sub tok 1 (String.length tok - 1))); t_nlen = n_of_int (String.length tok) }
   else failwith ("bad topic " ^ tok)
 
+(* a zero-length out still names its entry and the trim that emptied it: the acceptors need
+   that; the implementation side cannot know it and prints e:_:0:0, the two are matched by the
+   hash of the (empty) bytes *)
 let show_out (o : out) : string =
-  if o.o_len = N0 then "e:_:0:0"
-  else Printf.sprintf "e:%s:%s:%s" (dec_of_n o.o_pid) (dec_of_n o.o_skip) (dec_of_n o.o_len)
+  Printf.sprintf "e:%s:%s:%s" (dec_of_n o.o_pid) (dec_of_n o.o_skip) (dec_of_n o.o_len)
 
 let show_result (r : result) : string =
   match r with
